@@ -109,6 +109,35 @@ def run_property(pid, tier="quick", replay=None, repo_root=None, write_evidence=
 
     verdicts = [r for r in results if not r.note]
     notes = [r for r in results if r.note]
+    equiv_note = None
+    if any(r.status != HOLDS for r in verdicts) and not os.environ.get("TMVERIF_NO_EQUIV"):
+        # a shape the rule tables do not know (or a rule that fires): before that becomes a verdict, try to PROVE that the package computes
+        # what the confirmed reference computes (tmverif.equiv).  If it does, the verdict of the same rules on the reference carries over.
+        try:
+            from . import equiv, canon
+            ref = Repo(canon.REFERENCE_DIR)
+            ok, reasons, stats = equiv.package_equivalent(repo, ref)
+            if ok and stats.get("equivalent"):
+                ref_results = [r for r in mod.run(ref, tier) if not r.note]
+                if ref_results and all(r.status == HOLDS for r in ref_results):
+                    n_up = 0
+                    for r in verdicts:
+                        if r.status != HOLDS:
+                            r.detail = "[proved equivalent to the confirmed reference, on which every rule of this property holds; the rule itself said %s: %s]" % (
+                                r.status, r.detail[:300])
+                            r.status = HOLDS
+                            r.witness = None
+                            n_up += 1
+                    equiv_note = "package proved equivalent to the reference (%d functions identical, summary-equivalent: %s); %d rule result(s) taken from the reference" % (
+                        stats["identical"], ", ".join(stats["equivalent"]), n_up)
+                else:
+                    equiv_note = "package equivalent to the reference, but the reference itself does not satisfy every rule: verdicts unchanged"
+            elif not ok:
+                equiv_note = "not proved equivalent to the reference: %s" % "; ".join(reasons[:3])
+        except AnalysisError as e:
+            equiv_note = "equivalence fallback unavailable: %s" % e
+        except Exception as e:       # the fallback must never turn a verdict into a crash
+            equiv_note = "equivalence fallback crashed (%s: %s): verdicts unchanged" % (type(e).__name__, str(e)[:120])
     known, _fixed = load_known()
     known = known.get(pid, {})
     viol = [r for r in verdicts if r.status == VIOLATION]
@@ -135,6 +164,11 @@ def run_property(pid, tier="quick", replay=None, repo_root=None, write_evidence=
     rc = 0
     say("property %s tier=%s repo=%s digest=%s" % (pid, tier, repo.root, repo.digest()))
     say("analysed modules: %s" % ", ".join(sorted(repo.consulted)))
+    clog = {"%s.%s" % (m.short, f): a for m in repo.mods.values() for f, a in getattr(m, "canon_log", {}).items()}
+    if clog:
+        say("canonicalised towards the reference: %s" % "; ".join("%s [%s]" % (k, ", ".join(v[:6])) for k, v in sorted(clog.items())[:8]))
+    if equiv_note:
+        say("equivalence: %s" % equiv_note)
     for r in verdicts:
         say("  [%s] %-10s %s  (%s) %s" % (r.status, r.rule, r.func + " :: " + r.role, r.where, r.detail))
     for r in notes:
